@@ -114,6 +114,13 @@ def gen_histories(ck, n, steps):
                         est = k
                     cap = k
         behs.append(beh)
+    # mpt_memrev across its 1024-byte chunking
+    beh = [{"a": "init", "arg": {"max": 8, "off": 0}}]
+    for ln in (0, 1, 2, 7, 1023, 1024, 1025, 2047, 2048, 2049, 3100, 5000):
+        for pre in sorted(set([0, 1, ln // 2, 1023, 1024, 1025, max(ln - 1025, 0), max(ln - 1, 0), ln, ln + 1])):
+            if pre <= ln + 1:
+                beh.append({"a": "memrev", "arg": {"data": [(i * 7 + ln) % 251 + 1 for i in range(ln)], "pre": pre}})
+    behs.append(beh)
     return behs
 
 
